@@ -29,7 +29,9 @@ byte-exact correspondence on every generated text.  Proved for **all** texts:
   junction check still passes (a blank after a lexeme can only become a line end or the end of the text), and applies
   `tokenize_spell2` to both texts.
 * `l002_keeps_tokens` (`Proofs/LintLex2.lean`) — the same for the mixed-indentation fixer: without lines it is a
-  left-to-right pass with one bit of state (`fixL002_eq_expC`); through a tame text it only lengthens blank runs.
+  left-to-right pass with one bit of state (`fixL002_eq_expC`); through a tame text it only lengthens blank runs;
+  `l001_then_l002_keep_tokens`: the output of L001 is again a tame reference text (`seq_trim` keeps shape and tameness), so the
+  two fixers in the CLI's order keep the tokens.
 The full statement `tokens_preserved` for *all* texts is *not* provable: it is false for the
 code as written whenever the fixers' per-line quote scan disagrees with the lexer (multi-line literals,
 quotes in comments, backtick / dollar quoting) — `multiline_literal_counterexample` etc. exhibit that on the
@@ -105,6 +107,17 @@ theorem l002_keeps_tokens (cls : CharClass) (hA : Lex.AsciiOK cls) (lead : List 
       Lex.tokenize cls Lex.genLexTables (Lex.asBytes (fixL002 (Lex.asChars (Lex.sepBytes lead ++ Lex.flat2 items)))) = .ok toks' cs' ∧
       toks'.map Lex.Tok.key = toks.map Lex.Tok.key ∧ cs'.map Lex.Comment.key = cs.map Lex.Comment.key :=
   Lex.fixL002_keeps_tokens cls Lex.genLexTables hA gen_ops_no_ws lead items hlead hleadT hok htame hsize hcount
+
+/-- **C17 (the first two fixers in the CLI's order keep the tokens)** -/
+theorem l001_then_l002_keep_tokens (cls : CharClass) (hA : Lex.AsciiOK cls) (lead : List Lex.Piece) (items : List Lex.Item2)
+    (hlead : lead.all Lex.Piece.ok = true) (hleadT : lead.all Lex.Piece.tame = true) (hleadN : Lex.sepNorm lead = true)
+    (hok : Lex.seqOK cls Lex.genLexTables items = true) (htame : Lex.tameSeq cls Lex.genLexTables items = true)
+    (hsize : 4 * (Lex.sepBytes lead ++ Lex.flat2 items).length ≤ Lex.genLexTables.maxInput)
+    (hcount : items.length ≤ Lex.genLexTables.maxTokens) :
+    ∃ toks cs toks' cs', Lex.tokenize cls Lex.genLexTables (Lex.sepBytes lead ++ Lex.flat2 items) = .ok toks cs ∧
+      Lex.tokenize cls Lex.genLexTables (Lex.asBytes (fixL002 (fixL001 (Lex.asChars (Lex.sepBytes lead ++ Lex.flat2 items))))) = .ok toks' cs' ∧
+      toks'.map Lex.Tok.key = toks.map Lex.Tok.key ∧ cs'.map Lex.Comment.key = cs.map Lex.Comment.key :=
+  Lex.fixL001_then_L002_keeps_tokens cls Lex.genLexTables hA gen_ops_no_ws lead items hlead hleadT hleadN hok htame hsize hcount
 
 /-- non-vacuity: a text with trailing blanks after code, after a literal that contains blanks, on a blank line and at the
     end; the fixer changes it, the hypotheses hold -/
